@@ -168,6 +168,14 @@ func runPair(ctx context.Context, dir string, cs Case) (o Outcome) {
 		return
 	}
 	got, err := sqlm.DBFacts(db)
+	if err == nil {
+		// type families inside one affinity (bool / time / decimal / json / uuid …): Atlas keeps them
+		// apart when it compares types, so a move between them is a change the database must show
+		var tf sqlm.Facts
+		if tf, err = sqlm.DBTypeFacts(db); err == nil {
+			got = append(got, tf...)
+		}
+	}
 	db.Close()
 	if err != nil {
 		o.Inconclusive = "facts: " + err.Error()
@@ -177,7 +185,7 @@ func runPair(ctx context.Context, dir string, cs Case) (o Outcome) {
 	if cs.NoOrder || !sqlm.AppendOnly(cs.A, cs.B) {
 		ignore = []string{"colorder"}
 	}
-	if d := sqlm.IgnoreCheckNaming(sqlm.DiffFacts(cs.B.Facts(), got, ignore...)); len(d) > 0 {
+	if d := sqlm.IgnoreCheckNaming(sqlm.DiffFacts(append(cs.B.Facts(), cs.B.TypeFacts()...), got, ignore...)); len(d) > 0 {
 		for _, k := range sqlm.DiffKinds(d) {
 			o.atom("facts|"+k, "facts_diff", d)
 		}
@@ -273,6 +281,14 @@ func runCLI(atlas, dir string, cs Case) (o Outcome) {
 		return
 	}
 	got, err := sqlm.DBFacts(db)
+	if err == nil {
+		// type families inside one affinity (bool / time / decimal / json / uuid …): Atlas keeps them
+		// apart when it compares types, so a move between them is a change the database must show
+		var tf sqlm.Facts
+		if tf, err = sqlm.DBTypeFacts(db); err == nil {
+			got = append(got, tf...)
+		}
+	}
 	db.Close()
 	if err != nil {
 		o.Inconclusive = "facts: " + err.Error()
@@ -282,7 +298,7 @@ func runCLI(atlas, dir string, cs Case) (o Outcome) {
 	if cs.NoOrder || !sqlm.AppendOnly(cs.A, cs.B) {
 		ignore = []string{"colorder"}
 	}
-	if d := sqlm.IgnoreCheckNaming(sqlm.DiffFacts(cs.B.Facts(), got, ignore...)); len(d) > 0 {
+	if d := sqlm.IgnoreCheckNaming(sqlm.DiffFacts(append(cs.B.Facts(), cs.B.TypeFacts()...), got, ignore...)); len(d) > 0 {
 		for _, k := range sqlm.DiffKinds(d) {
 			o.atom("cli-facts|"+k, "facts_diff", d)
 		}
@@ -633,6 +649,8 @@ func workload(c *rt.Ctx) []Case {
 	// on the table changes (or only an index is added, which stays on the ALTER path), so nothing but
 	// the nullability change itself can bring the column to the desired state.
 	pkn := pkNullCases()
+	pkn = append(pkn, typeFamilyCases()...)
+	pkn = append(pkn, nameCases()...)
 	for _, cs := range pkn {
 		add(cs)
 	}
@@ -759,4 +777,109 @@ func run(c *rt.Ctx) {
 		fmt.Fprintf(os.Stderr, "C01 monitor broken: planner paths seen: alter=%d rebuild=%d (both needed)\n", m.alter.Load(), m.rebuild.Load())
 		os.Exit(4)
 	}
+}
+
+// typeFamilyCases: a column moves between type families that share SQLite's NUMERIC affinity (bool,
+// time, decimal, json, uuid) and nothing else on the table changes (or only an index is added). Atlas's
+// differ keeps these families apart, so the unchanged tree plans a rebuild and the declared type must
+// end up in the desired family; moves INSIDE a family (date -> datetime, numeric -> decimal) are
+// documented as equal and are included only to show that no demand is made there.
+func typeFamilyCases() []Case {
+	reps := []string{"boolean", "datetime", "decimal(10,5)", "json", "uuid", "date", "numeric", "bool"}
+	var out []Case
+	modes := []string{"atlas", sqlm.Styles[0].Name, sqlm.Styles[2].Name}
+	n := 0
+	for _, from := range reps {
+		for _, to := range reps {
+			if from == to {
+				continue
+			}
+			mk := func(typ string, idx bool) sqlm.Schema {
+				t := sqlm.Table{Name: "nf", Cols: []sqlm.Col{{Name: "id", Type: "integer"}, {Name: "c", Type: typ, Null: true}, {Name: "v", Type: "text", Null: true}}, PK: []string{"id"}}
+				if idx {
+					t.Idx = []sqlm.Idx{{Name: "nf_v", Parts: []sqlm.Part{{Col: "v"}}}}
+				}
+				return sqlm.Schema{Tables: []sqlm.Table{t}}
+			}
+			kind := "col.type.family"
+			if sqlm.TypeFamily(from) == sqlm.TypeFamily(to) {
+				kind = "col.type.same-family"
+			}
+			rows := 0
+			if n%3 == 0 {
+				rows = 3
+			}
+			out = append(out, Case{Pair: sqlm.Pair{A: mk(from, false), B: mk(to, n%2 == 1), Mode: modes[n%len(modes)], Rows: rows},
+				Name: fmt.Sprintf("type-family:%s->%s", from, to), Src: "type-family", Edits: []string{kind}})
+			n++
+		}
+	}
+	return out
+}
+
+// nameCases: identifiers that look like keywords or expressions to a text based inspector — names
+// containing where / check / references / constraint / primary / as / autoincrement / generated, and
+// (on free columns) parentheses, '*', commas and blanks — in tables with the features whose inspection
+// depends on the stored CREATE text: partial and expression indexes, named checks, named foreign keys,
+// generated columns, AUTOINCREMENT. Each schema is created from empty, re-applied from every raw
+// style, and rebuilt once (a named check is added).
+func nameCases() []Case {
+	n := func(name, typ string) sqlm.Col { return sqlm.Col{Name: name, Type: typ, Null: true} }
+	visits := sqlm.Table{Name: "anywhere", Cols: []sqlm.Col{
+		{Name: "id", Type: "integer", AutoInc: true}, n("somewhere", "text"), n("active", "integer"), n("where_clause", "text"), n("elsewhere_id", "integer"),
+		n("nowhere_len", "int").Clone()}, PK: []string{"id"},
+		Idx: []sqlm.Idx{
+			{Name: "idx_elsewhere", Parts: []sqlm.Part{{Col: "somewhere"}}, Where: "active > 0", Refs: []string{"active"}},
+			{Name: "anywhere_where_clause", Unique: true, Parts: []sqlm.Part{{Col: "where_clause", Desc: true}}, Where: "somewhere IS NOT NULL", Refs: []string{"somewhere"}},
+			{Name: "nowhere_expr", Parts: []sqlm.Part{{Expr: "lower(somewhere)"}}, Where: "where_clause IS NOT NULL", Refs: []string{"somewhere", "where_clause"}},
+		},
+		FKs: []sqlm.FK{{Name: "elsewhere_fk", Cols: []string{"elsewhere_id"}, RefTable: "anywhere", RefCols: []string{"id"}, OnDelete: "SET NULL"}}}
+	visits.Cols[5].Gen = &sqlm.Gen{Expr: "length(somewhere)", Refs: []string{"somewhere"}}
+	checks := sqlm.Table{Name: "checkpoints", Cols: []sqlm.Col{
+		{Name: "id", Type: "integer"}, n("checked", "integer"), n("recheck_at", "datetime"), n("references_n", "integer"), n("constraint_kind", "text"),
+		n("primary_ref", "integer"), n("alias", "text"), n("generated_by", "text"), n("autoincrement_from", "integer"), n("as_of", "date")}, PK: []string{"id"},
+		Idx:    []sqlm.Idx{{Name: "checkpoints_unique_check", Unique: true, Parts: []sqlm.Part{{Col: "checked"}, {Col: "references_n", Desc: true}}, Where: "checked > 0", Refs: []string{"checked"}}},
+		FKs:    []sqlm.FK{{Name: "references_primary", Cols: []string{"primary_ref"}, RefTable: "anywhere", RefCols: []string{"id"}, OnDelete: "CASCADE", OnUpdate: "RESTRICT"}},
+		Checks: []sqlm.Check{{Name: "check_checked", Expr: "checked >= 0 OR checked IS NULL", Refs: []string{"checked"}}, {Expr: "length(constraint_kind) < 1000", Refs: []string{"constraint_kind"}}}}
+	snap := sqlm.Table{Name: "snap", Cols: []sqlm.Col{
+		{Name: "id", Type: "integer"}, n("region", "text"), n("lower(region)", "text"), n("count(*)", "integer"), n("max(id), min(id)", "integer"),
+		n("price (usd)", "real"), n("a,b", "text"), n("select * from snap where id", "text"), n("check (id > 0)", "integer"), n("x as y", "numeric")}, PK: []string{"id"},
+		Idx: []sqlm.Idx{{Name: "snap_region", Parts: []sqlm.Part{{Col: "region"}}, Where: "region IS NOT NULL", Refs: []string{"region"}}}}
+	base := sqlm.Schema{Tables: []sqlm.Table{visits, checks, snap}}
+	if err := base.Validate(); err != nil {
+		panic("c01 nameCases: " + err.Error())
+	}
+	var out []Case
+	out = append(out, Case{Pair: sqlm.Pair{B: base, Mode: "atlas"}, Name: "names:create", Src: "names"})
+	for _, st := range sqlm.Styles {
+		out = append(out, Case{Pair: sqlm.Pair{A: base, B: base, Mode: st.Name}, Name: "names:raw-identity/" + st.Name, Src: "names"})
+	}
+	modes := []string{"atlas"}
+	for _, st := range sqlm.Styles {
+		modes = append(modes, st.Name)
+	}
+	k := 0
+	for ti := range base.Tables {
+		// a rebuild of each table (named check on id) and an ALTER path change (index on id)
+		for v := 0; v < 2; v++ {
+			b := base.Clone()
+			t := &b.Tables[ti]
+			edit := "check.add.named"
+			if v == 0 {
+				t.Checks = append(t.Checks, sqlm.Check{Name: t.Name + "_idck", Expr: "id > 0", Refs: []string{"id"}})
+			} else {
+				edit = "idx.add.partial"
+				t.Idx = append(t.Idx, sqlm.Idx{Name: t.Name + "_id_somewhere", Parts: []sqlm.Part{{Col: "id", Desc: true}}, Where: "id > 0", Refs: []string{"id"}})
+			}
+			for r := 0; r < 2; r++ {
+				rows := 0
+				if r == 1 {
+					rows = 3
+				}
+				out = append(out, Case{Pair: sqlm.Pair{A: base, B: b, Mode: modes[k%len(modes)], Rows: rows}, Name: fmt.Sprintf("names:%s/%s", t.Name, edit), Src: "names", Edits: []string{edit}})
+				k++
+			}
+		}
+	}
+	return out
 }
